@@ -39,7 +39,7 @@ class C05(rowgen.RowGenProp):
             c1 = rowgen.gen_case(rng, spec, rng.randint(1, 60), call_p=0.25)
             c2 = rowgen.gen_case(rng, spec, rng.randint(1, 40), call_p=0.15)
             yield {"k": "gen", "gen": spec, "ops": c1["ops"] + "r" + c2["ops"]}
-        yield from self.world_cases(rng, 40 if tier == "quick" else 400)
+        yield from self.world_cases(rng, 90 if tier == "quick" else 600)
         for _ in range(20 if tier == "quick" else 200):
             yield self.server_touches(rng)
         for _ in range(30 if tier == "quick" else 300):
@@ -138,6 +138,12 @@ class C05(rowgen.RowGenProp):
             events = [call(t0, LOOK_TO), call(go1, GO), call(back, rng.choice([THATS_ALL, ROUNDS])), call(go2, GO)]
             for _ in range(rng.choice([0, 1, 2])):
                 events.append(call(rng.uniform(go1, back), rng.choice([BOB, SINGLE])))
+            rep_ta = None
+            if rng.random() < 0.5:
+                # That's all repeated (or called late) in the rounds between the touches, at least one whole row before
+                # the second Go: it is absorbed at the next row end and must leave nothing behind for the new touch
+                rep_ta = go2 - rng.uniform(1.15, 1.9) * row_t
+                events.append(call(rep_ta, THATS_ALL))
             pre = None
             if rng.random() < 0.5:
                 # a Bob or Single called in the rounds between the second Go and the start of the method: it was
@@ -151,7 +157,7 @@ class C05(rowgen.RowGenProp):
             rows_after = 9 if pre is None else min(26, L + 5)
             sc = {"start": 1000.0, "end": go2 + rows_after * row_t, "tower_size": N, "events": events,
                   "bot": scen.bot_cfg(spec), "rhythm": scen.rhythm_cfg("regression", inertia=1.0, peal_speed=ps)}
-            yield {"k": "world", "scenario": sc, "go2": go2, "t0": t0, "pre_call": pre}
+            yield {"k": "world", "scenario": sc, "go2": go2, "t0": t0, "pre_call": pre, "rep_ta": rep_ta}
 
     def impl(self, req):
         if req["k"] == "world":
@@ -236,6 +242,23 @@ class C05(rowgen.RowGenProp):
                 return (f"second start of the method (row {m}): row {j} is {rows[m + j]}, a freshly launched Wheatley "
                         f"rings {fresh[j] + covers}")
         return None
+
+    def matches_finding(self, finding, req, msg):
+        """C05-pending-thats-all-cancels-go: a That's all called before the Go, in rows that are not rounds (a custom
+        start row rung again after 'Rounds'), is still counting down when the method starts and turns the start into
+        rounds.  Only that: the opening row differs from rounds, there is such a That's all, and what is rung instead
+        of the method's first row is rounds."""
+        if finding["id"] != "C05-pending-thats-all-cancels-go" or req.get("k") != "world" or not req.get("rep_ta"):
+            return False
+        sc = req["scenario"]
+        N = sc["tower_size"]
+        spec = sc["bot"]["gen"]
+        if not spec.get("start_row"):
+            return False
+        start = [gens.BELLS.index(c) + 1 for c in spec["start_row"]]
+        opening = start + [b for b in range(1, N + 1) if b not in start]
+        rounds = list(range(1, N + 1))
+        return opening != rounds and msg.startswith("second start of the method") and f"row 0 is {rounds}," in msg
 
     def nontrivial(self, req, reply):
         if req["k"] == "world":
